@@ -7,6 +7,7 @@ package main
 
 import (
 	"fmt"
+	"math"
 	"os"
 	"path/filepath"
 	"reflect"
@@ -29,7 +30,7 @@ var xSamples = []struct {
 	{"BE", xlatesample.BE}, {"Str", xlatesample.Str}, {"Switch", xlatesample.Switch}, {"SwitchRet", xlatesample.SwitchRet},
 	{"IfMerge", xlatesample.IfMerge}, {"Swap", xlatesample.Swap}, {"RangeSum", xlatesample.RangeSum}, {"RangeMinMax", xlatesample.RangeMinMax},
 	{"Count", xlatesample.Count}, {"CountRet", xlatesample.CountRet}, {"Struct", xlatesample.Struct}, {"Ret0", xlatesample.Ret0},
-	{"Collect", xlatesample.Collect}, {"Make", xlatesample.Make},
+	{"Collect", xlatesample.Collect}, {"Make", xlatesample.Make}, {"Search", xlatesample.Search}, {"Widen", xlatesample.Widen}, {"SortDesc", xlatesample.SortDesc}, {"StrOrder", xlatesample.StrOrder},
 }
 
 // boundary values of a parameter type
@@ -47,8 +48,14 @@ func xGrid(t reflect.Type) []reflect.Value {
 		for _, v := range []uint64{0, 1, 2, 3, 7, 15, 16, 31, 100, 1 << (w - 1), 1<<(w-1) + 1, 1<<w - 2, 1<<w - 1} {
 			add(v)
 		}
+		if w == 32 { // float32 patterns: subnormals, least normal, 1.0, max, infinities, NaNs (signalling, quiet), negative ones
+			for _, v := range []uint64{0x00000001, 0x00000400, 0x007fffff, 0x00800000, 0x3f800000, 0x3fc00000, 0x7f7fffff, 0x7f800000, 0x7f800001,
+				0x7fa00000, 0x7fc00000, 0x7fffffff, 0x80000001, 0x807fffff, 0xbf800000, 0xff800000, 0xffc00001, 0x40490fdb} {
+				add(v)
+			}
+		}
 	case reflect.String:
-		for _, v := range []string{"", "tcp", "ssl", "s", "udp", "tcpx"} {
+		for _, v := range []string{"", "tcp", "ssl", "s", "udp", "tcpx", "tc", "\xff", "tcq"} {
 			add(v)
 		}
 	case reflect.Slice:
@@ -58,7 +65,7 @@ func xGrid(t reflect.Type) []reflect.Value {
 				add(v)
 			}
 		case reflect.Int32:
-			for _, v := range [][]int32{nil, {5}, {1, 2, 3}, {2147483647, 1, 1}, {4, -2, 9}, {-2147483648}} {
+			for _, v := range [][]int32{nil, {5}, {1, 2, 3}, {2147483647, 1, 1}, {4, -2, 9}, {-2147483648}, {-100, -1, 0, 1, 2, 2, 7, 100}} {
 				add(v)
 			}
 		case reflect.Int16:
@@ -83,6 +90,10 @@ func xCoqVal(v reflect.Value) string {
 		return fmt.Sprint(v.Int())
 	case reflect.Uint8, reflect.Uint16, reflect.Uint32, reflect.Uint64, reflect.Uint:
 		return fmt.Sprint(v.Uint())
+	case reflect.Float32:
+		return fmt.Sprint(math.Float32bits(float32(v.Float())))
+	case reflect.Float64:
+		return fmt.Sprint(math.Float64bits(v.Float()))
 	case reflect.Bool:
 		return fmt.Sprint(v.Bool())
 	case reflect.Interface: // an error: nil or not
